@@ -136,11 +136,17 @@ def trim(ctx):
         ident_p = z3.And(m == n, z3.Implies(z3.And(ic >= 0, ic < n), sel(ic) == ic))
         ident_c = z3.And(m == n, z3.ForAll([kq], z3.Implies(z3.And(kq >= 0, kq < n), sel(kq) == kq), patterns=[sel(kq)]))
         PW, Pt0 = sums.prefix_fn(st, W), sums.prefix_fn(st, wt0)
+        X = sq1.prov[1]               # the renormalised kept weights wt0 / sum(wt0) whose squares are summed
+        ie, ke = z3.Int("ie!h"), z3.Int("ke!h")
+        same_p = z3.Implies(z3.And(ie >= 0, ie < n), to_z3(X.at(ie), "real") == to_z3(W.at(ie), "real"))
+        same_c = z3.ForAll([ke], z3.Implies(z3.And(ke >= 0, ke < n), to_z3(X.at(ke), "real") == to_z3(W.at(ke), "real")))
         return [("at-p0-selection-is-identity", z3.Implies(at0, ident_p), z3.Implies(at0, ident_c)),
                 ("at-p0-all-kept", z3.Implies(at0, p1), z3.Implies(at0, c1)),
                 ("normalised-total-is-one", PW(n - 1) == 1, PW(n - 1) == 1),
                 ("at-p0-kept-total-is-one", z3.Implies(at0, Pt0(m - 1) == 1), z3.Implies(at0, Pt0(m - 1) == 1)),
-                ("at-p0-same-squares", z3.Implies(at0, p2), z3.Implies(at0, c2))]
+                # L-SUM-cong on the squares, with the premise stated on the bases (pointwise-equal arrays have pointwise-equal
+                # squares): keeps the query free of nonlinear arithmetic, which made it solver-seed dependent
+                ("at-p0-same-squares", z3.Implies(at0, z3.And(m == n, same_p)), z3.Implies(at0, z3.And(same_c, c2)))]
 
     def post(I, o, pre):
         st = o.state
